@@ -2,6 +2,8 @@ package main
 
 import (
 	"time"
+
+	"verif/engine/sym"
 )
 
 func allChecks() []*Check {
@@ -13,7 +15,7 @@ func allChecks() []*Check {
 				{Pkg: "client", Func: "VerifSession", Sched: true, Quick: map[string]int{"N": 3, "SW": 1, "KINDS": 0, "TRACK": 0, "EARLY": 1}, Thorough: map[string]int{"N": 4, "SW": 2, "KINDS": 1, "TRACK": 0, "EARLY": 1}, Asserts: []string{"DISCONNECTED-only-after-fg-handlers-finished", "DISCONNECTED-exactly-once", "fg-handlers-in-wire-order"}, Note: "disconnect while lines are being processed"},
 				{Pkg: "client", Func: "VerifC01Deliver", Quick: map[string]int{"LONG": 1, "VBL": 1, "TL": 1}, Thorough: map[string]int{"LONG": 1, "VBL": 2, "TL": 2}, Asserts: []string{"delivered-equal", "next-line-delivered"}, Note: "a line longer than the read buffer, followed by another"},
 			},
-			Bounds: map[string]string{"quick": "a scripted session of 3 lines (001, own JOIN, other's JOIN) over the real Connect/recv/runLoop/dispatch/Close with 2 foreground + 1 background handler per verb and CONNECTED/DISCONNECTED handlers; the byte stream cut into reads in 4 ways (whole, mid-line, between CR and LF, at a line boundary); one designated handler invocation returns / yields mid-way; ended by server EOF, one Close, or two Closes racing EOF, after delivery or while lines are in flight; goroutine schedules: the deterministic run-until-block schedule plus every schedule within 1 deviation (delay bound 1) at block points, select choices and explicit yields; a 4200-byte line through recv",
+			Bounds: map[string]string{"quick": "a scripted session of 3 lines (001 changing the nick, own JOIN, PING; thorough adds another user's JOIN and a PRIVMSG; names symbolic) over the real Connect/recv/runLoop/dispatch/Close with 2 foreground + 1 background handler per verb and CONNECTED/DISCONNECTED handlers; the byte stream cut into reads in 4 ways (whole, mid-line, between CR and LF, at a line boundary); one designated handler invocation returns / yields mid-way; ended by server EOF, one Close, or two Closes racing EOF, after delivery or while lines are in flight; goroutine schedules: the deterministic run-until-block schedule plus every schedule within 1 deviation (delay bound 1) at block points, select choices and explicit yields; a 4200-byte line through recv",
 				"thorough": "4 lines, delay bound 2, preemption also at mutex operations"},
 			Outside:     []string{"schedules needing more deviations than the delay bound; GOMAXPROCS is immaterial to the model (every interleaving at the modelled visible operations is a schedule of the coroutine scheduler, but only those within the bound are explored)", "more lines / handlers", "REGISTER ordering (as in the property)"},
 			Stubs:       []string{"goroutines = coroutines under the executor's scheduler (channel, mutex, WaitGroup, select, context models)", "bufio model, in-memory wire, proxy dialler stub"},
@@ -37,6 +39,7 @@ func allChecks() []*Check {
 				{Pkg: "client", Func: "VerifC18Dial", Quick: map[string]int{"HL": 1}, Thorough: map[string]int{"HL": 2}, Asserts: []string{"failed-connect-fires-nothing", "failed-connect-not-connected", "register-once-before-connect-returns"}, Note: "dial error / TLS handshake failure"},
 				{Pkg: "client", Func: "VerifSession", Sched: true, Quick: map[string]int{"N": 2, "SW": 1, "KINDS": 1, "TRACK": 0}, Thorough: map[string]int{"N": 3, "SW": 2, "KINDS": 1, "TRACK": 1}, Asserts: []string{"DISCONNECTED-exactly-once", "REGISTER-exactly-once", "REGISTER-once-before-Connect-returns", "Connected-false-in-DISCONNECTED-handler", "Connected-true-in-REGISTER-handler"}},
 				{Pkg: "client", Func: "VerifSession", Sched: true, Quick: map[string]int{"N": 2, "SW": 1, "KINDS": 1, "TRACK": 0, "EARLY": 1}, Thorough: map[string]int{"N": 3, "SW": 2, "KINDS": 1, "TRACK": 0, "EARLY": 1}, Asserts: []string{"DISCONNECTED-exactly-once", "REGISTER-exactly-once"}, Note: "ends while lines are in flight"},
+				{Pkg: "client", Func: "VerifC06CancelDuringConnect", Sched: true, Quick: map[string]int{"SW": 1}, Thorough: map[string]int{"SW": 2}, Asserts: []string{"REGISTER-exactly-once", "DISCONNECTED-exactly-once"}},
 				{Pkg: "client", Func: "VerifC06WriteError", Sched: true, Quick: map[string]int{"SW": 1}, Thorough: map[string]int{"SW": 2}, Asserts: []string{"DISCONNECTED-exactly-once"}},
 			},
 			Bounds:      map[string]string{"quick": "refused connects (no server / already connected) and Close when not connected, with and without tracking; dial error and TLS handshake failure; scripted sessions of 2 lines ended by server EOF, one Close, two Closes racing EOF - after delivery or while lines are in flight - and by an error on the k-th socket write or context cancellation; schedules within delay bound 1 with preemption at mutex operations and explicit yields", "thorough": "3 lines, delay bound 2"},
@@ -47,7 +50,7 @@ func allChecks() []*Check {
 		{
 			ID: "C16", Title: "A misbehaving handler cannot stop event delivery",
 			Harnesses: []Harness{
-				{Pkg: "client", Func: "VerifSession", Sched: true, Quick: map[string]int{"N": 3, "SW": 1, "KINDS": 0, "TRACK": 1, "PANICS": 1}, Thorough: map[string]int{"N": 4, "SW": 2, "KINDS": 0, "TRACK": 1, "PANICS": 1}, Asserts: []string{"every-panic-reached-Recover", "every-handler-of-every-line-exactly-once", "DISCONNECTED-exactly-once"}},
+				{Pkg: "client", Func: "VerifSession", Sched: true, Quick: map[string]int{"N": 3, "SW": 1, "KINDS": 0, "TRACK": 1, "PANICS": 1}, Thorough: map[string]int{"N": 4, "SW": 2, "KINDS": 0, "TRACK": 1, "PANICS": 1}, Asserts: []string{"every-panic-reached-Recover", "every-handler-of-every-line-exactly-once", "DISCONNECTED-exactly-once", "DISCONNECTED-not-delayed-by-stuck-background-handler"}},
 				{Pkg: "client", Func: "VerifC16Recover", Asserts: []string{"recover-called-with-conn-and-line", "handle-returns-normally", "default-logs-one-error", "builtin-handler-panic-recovered", "later-handlers-still-run"}},
 				{Pkg: "client", Func: "VerifC16Background", Asserts: []string{"foreground-not-delayed-by-stuck-background"}},
 			},
@@ -62,6 +65,7 @@ func allChecks() []*Check {
 				{Pkg: "client", Func: "VerifC07Teardown", Sched: true, Quick: map[string]int{"INB": 3, "OUTB": 0, "SW": 1}, Thorough: map[string]int{"INB": 5, "OUTB": 3, "SW": 2}, Asserts: []string{"DISCONNECTED-delivered-once", "Close-returned", "monitor:no-goroutine-left-behind"}, Note: "small backlogs, delay-bounded schedules"},
 				{Pkg: "client", Func: "VerifC07Teardown", Sched: true, Quick: map[string]int{"INB": 70, "OUTB": 0, "SW": 1}, Thorough: map[string]int{"INB": 140, "OUTB": 0, "SW": 1}, Asserts: []string{"DISCONNECTED-delivered-once"}, Note: "inbound backlog beyond twice the queue capacity"},
 				{Pkg: "client", Func: "VerifC07Teardown", Sched: true, Quick: map[string]int{"INB": 0, "OUTB": 70, "SW": 0}, Thorough: map[string]int{"INB": 40, "OUTB": 140, "SW": 0}, Asserts: []string{"DISCONNECTED-delivered-once"}, Note: "a handler emitting more lines than twice the queue capacity to a stalled peer"},
+				{Pkg: "client", Func: "VerifC07Teardown", Sched: true, Quick: map[string]int{"INB": 0, "OUTB": 40, "PRODUCER": 1, "SW": 0}, Thorough: map[string]int{"INB": 8, "OUTB": 80, "PRODUCER": 1, "SW": 1}, Asserts: []string{"DISCONNECTED-delivered-once"}, Note: "a user goroutine flooding a stalled peer"},
 				{Pkg: "client", Func: "VerifC07Reconnect", Sched: true, Quick: map[string]int{"CYCLES": 2, "SW": 1, "KINDS": 1}, Thorough: map[string]int{"CYCLES": 3, "SW": 2, "KINDS": 1}, Asserts: []string{"old-teardown-disconnects-new-connection", "new-connection-stays-up", "new-socket-not-closed-by-old-teardown", "registration-reaches-the-new-socket", "REGISTER-once-per-connection", "DISCONNECTED-once-per-ended-connection"}},
 				{Pkg: "client", Func: "VerifC07Wipe", Asserts: []string{"tracker-reset-on-connect", "tracker-is-just-the-client"}},
 			},
@@ -150,7 +154,7 @@ func allChecks() []*Check {
 			ID: "C14", Title: "Tracker answers are private snapshots, and the tracker is safe to share",
 			Harnesses: []Harness{
 				{Pkg: "state", Func: "VerifC14Step", Quick: map[string]int{"NN": 2, "NC": 1}, Thorough: map[string]int{"NN": 3, "NC": 2},
-					Asserts: []string{"at-most-one-critical-section", "lock-released", "monitor:all-accesses-under-lock", "result-is-private-copy"}},
+					Asserts: []string{"at-most-one-critical-section", "lock-released", "monitor:all-accesses-under-lock", "result-is-private-copy", "answers-share-nothing-with-each-other"}},
 			},
 			Bounds:      map[string]string{"quick": "pre-state: any valid tracker state over 2 nick slots x 1 channel (as C12); one call of each of the 16 Tracker methods with symbolic name arguments", "thorough": "3 nick slots x 2 channels"},
 			Outside:     []string{"larger universes", "the step from 'every method body is exactly one critical section of one mutex, with every access to tracker-owned heap inside it' to linearizability and data-race freedom is the textbook argument and is not solver-checked; no concurrent history is executed"},
@@ -177,6 +181,7 @@ func allChecks() []*Check {
 			Harnesses: []Harness{
 				{Pkg: "client", Func: "VerifC04Step", Quick: map[string]int{"N": 2}, Thorough: map[string]int{"N": 3},
 					Asserts: []string{"add-model", "remove-model", "snapshot-model", "post-invariant", "one-critical-section", "monitor:all-accesses-under-lock", "empty-list-dropped"}},
+				{Pkg: "client", Func: "VerifC04History", Quick: map[string]int{"K": 5}, Thorough: map[string]int{"K": 6}, Asserts: []string{"history:each-live-handler-once-removed-never"}},
 				{Pkg: "client", Func: "VerifC04Dispatch", Quick: map[string]int{"N": 2}, Thorough: map[string]int{"N": 3},
 					Asserts: []string{"each-once", "ran-exactly-the-registered-count", "late-registration-runs-next-time", "post-invariant"}},
 			},
@@ -212,6 +217,7 @@ func allChecks() []*Check {
 		},
 		{
 			ID: "C08", Title: "Each API call writes only whole, single IRC commands of its own verb",
+			Pre: c08MethodSet,
 			Harnesses: []Harness{
 				{Pkg: "client", Func: "VerifC08Commands", Quick: map[string]int{"A": 2, "V": 2}, Thorough: map[string]int{"A": 4, "V": 2},
 					Asserts: []string{"no-crlf-in-line", "own-verb", "wire-is-line-crlf", "one-flush-per-line"}},
@@ -255,7 +261,8 @@ func allChecks() []*Check {
 			Harnesses: []Harness{
 				{Pkg: "client", Func: "VerifC02Parse", Quick: map[string]int{"L": 6}, Thorough: map[string]int{"L": 9}},
 				{Pkg: "client", Func: "VerifC02Prefixed", Quick: map[string]int{"L": 4}, Thorough: map[string]int{"L": 7}},
-				{Pkg: "client", Func: "VerifC02Handlers", Quick: map[string]int{"L": 4}, Thorough: map[string]int{"L": 6}},
+				{Pkg: "client", Func: "VerifC02Handlers", Quick: map[string]int{"L": 4}, Thorough: map[string]int{"L": 6}, Asserts: []string{"later-PING-still-answered", "later-line-still-dispatched", "capability-state-still-works"}},
+				{Pkg: "client", Func: "VerifC02HandlerShapes", Quick: map[string]int{"L": 2}, Thorough: map[string]int{"L": 4}, Asserts: []string{"later-PING-still-answered", "later-line-still-dispatched", "capability-state-still-works"}},
 				{Pkg: "client", Func: "VerifC02Recv", Quick: map[string]int{"L": 4}, Thorough: map[string]int{"L": 7}, Asserts: []string{"later-line-processed"}},
 			},
 			Bounds:      map[string]string{"quick": "every ASCII byte string of length <= 6", "thorough": "every ASCII byte string of length <= 9"},
@@ -264,4 +271,23 @@ func allChecks() []*Check {
 			QuickBudget: 4 * time.Minute, ThorBudget: 30 * time.Minute,
 		},
 	}
+}
+
+// c08Covered: the command methods driven by VerifC08Commands.
+var c08Covered = map[string]bool{"Raw": true, "Pass": true, "Nick": true, "User": true, "Join": true, "Part": true, "Kick": true, "Quit": true,
+	"Whois": true, "Who": true, "Privmsg": true, "Privmsgln": true, "Privmsgf": true, "Notice": true, "Ctcp": true, "CtcpReply": true,
+	"Version": true, "Action": true, "Topic": true, "Mode": true, "Away": true, "Invite": true, "Oper": true, "VHost": true,
+	"Ping": true, "Pong": true, "Cap": true, "Authenticate": true}
+
+// c08MethodSet computes, from the SSA of the current tree, every exported method of
+// *Conn in commands.go and every exported method that (transitively, through
+// static calls) reaches the output queue, and reports the ones the harness does not drive.
+func c08MethodSet(p *sym.Program) []string {
+	var out []string
+	for _, name := range p.ExportedConnMethodsSending() {
+		if !c08Covered[name] {
+			out = append(out, "exported command method (*Conn)."+name+" sends to the server but is not driven by the C08 harness")
+		}
+	}
+	return out
 }
